@@ -1248,6 +1248,47 @@ pub fn run(ctx: &Ctx) -> Result<Report, String> {
         }));
     }
 
+    // ---- logging switched on (the handler logs through `tracing`; what a log line computes is computed only when a
+    // subscriber listens): every history of two operations over the history image set, boxed and direct, on this
+    // thread under a subscriber that formats everything; the verdicts must be those of the silent runs (none)
+    let mut logged = 0u64;
+    // (the small images and the first two positions: a log line may print the whole image)
+    let small = |i: &usize| [0usize, 1, 2, 4, 7].contains(i);
+    let log_ops: Vec<Op> = ops
+        .iter()
+        .copied()
+        .filter(|o| match o {
+            Op::Draw(i, p) | Op::EraseAt(i, p) => small(i) && *p < 2,
+            Op::EraseAll(i) => small(i),
+            Op::Resp { id: IdRef::Img(i), pl, .. } => small(i) && !matches!(pl, PlRef::Pos(p) if *p >= 2),
+            _ => true,
+        })
+        .collect();
+    crate::engine::logging::with_logging(|| {
+        for boxed in [false, true] {
+            for a in &log_ops {
+                for b in &log_ops {
+                    logged += 1;
+                    let hist = [*a, *b];
+                    let (_, findings, prefix_bad) = run_history(&env, false, boxed, &hist);
+                    if prefix_bad {
+                        continue;
+                    }
+                    for f in findings {
+                        if f.key.contains(":p0-unspecified@") || f.key.contains(":removes-other-placements@") {
+                            continue;
+                        }
+                        let mut w = history_witness(&env, false, boxed, &hist);
+                        w["logging"] = json!(true);
+                        viol.add(format!("logging:{}", f.key), format!("with a tracing subscriber listening: {}", f.what), w);
+                    }
+                }
+            }
+        }
+    });
+
+    parts.push(json!({"handler": "KittyImageHandler::new(), direct and boxed", "logging": "a tracing subscriber formats every log line", "alphabet_size": log_ops.len(), "depth": 2, "histories": logged}));
+
     // ---- a few complete histories for the evidence file (seed only rotates which ones)
     for k in 0..6u64 {
         let pick = |m: u64, a: u64| ops[((ctx.seed.wrapping_add(k * m).wrapping_add(a)) % ops.len() as u64) as usize];
@@ -1377,6 +1418,11 @@ pub fn replay(w: &Value) -> Result<(bool, String), String> {
             let env = probe(w["images"].as_str().unwrap_or("history"), &dummy);
             let quiet = w["quiet"].as_bool().unwrap_or(false);
             let boxed = w["boxed"].as_bool().unwrap_or(false);
+            if w["logging"].as_bool() == Some(true) {
+                let mut w2 = w.clone();
+                w2["logging"] = json!(false);
+                return crate::engine::logging::with_logging(|| replay(&w2));
+            }
             let ops: Vec<Op> = w["ops"].as_array().ok_or("ops")?.iter().map(|o| env.op_from_json(o)).collect::<Result<_, _>>()?;
             let mut world = World::new_with(quiet, boxed);
             for (n, op) in ops.iter().enumerate() {
